@@ -30,7 +30,9 @@ def sort_str(s):
 
 
 class Printer:
-    def __init__(self):
+    def __init__(self, nlmul=False):
+        self.nlmul = nlmul
+        self.nlseen = set()
         self.decls = {}      # symbol -> decl line
         self.order = []
         self.defs = []       # let-style definitions as asserts
@@ -122,6 +124,21 @@ class Printer:
                 r = f
             else:
                 r = '(%s %s)' % (f, ' '.join(self.p(x, bound) for x in args))
+        elif op == '*' and self.nlmul and len(args) == 2 and args[0][0] != 'i' and args[1][0] != 'i':
+            # symbolic product as an uninterpreted (commutative) function: congruence + sign/unit facts only
+            if 'v_nlmul' not in self.decls:
+                self.decls['v_nlmul'] = '(declare-fun v_nlmul (Int Int) Int)'
+                self.items.append(self.decls['v_nlmul'])
+            a, b = sorted([self.p(args[0], bound), self.p(args[1], bound)])
+            r = '(v_nlmul %s %s)' % (a, b)
+            if not bound and (a, b) not in self.nlseen:
+                self.nlseen.add((a, b))
+                self.nlfacts = getattr(self, 'nlfacts', [])
+                self.nlfacts.append('(assert (=> (and (>= %s 0) (>= %s 0)) (>= %s 0)))' % (a, b, r))
+                self.nlfacts.append('(assert (=> (or (= %s 0) (= %s 0)) (= %s 0)))' % (a, b, r))
+                self.nlfacts.append('(assert (=> (= %s 1) (= %s %s)))' % (a, r, b))
+                self.nlfacts.append('(assert (=> (= %s 1) (= %s %s)))' % (b, r, a))
+                self.nlfacts.append('(assert (= %s (v_nlmul %s %s)))' % (r, b, a))
         elif op == 'neg':
             r = '(- %s)' % self.p(args[0], bound)
         elif op == 'distinct' and len(args) < 2:
@@ -312,7 +329,7 @@ def instantiate(hyps, goal_parts, rounds=2, per_quant=60, cap=1200):
 
 # ---------------------------------------------------------------- query building
 
-def build_query(hyps, goal, quantified=False, models=True, extra_instances=True):
+def build_query(hyps, goal, quantified=False, models=True, extra_instances=True, nlmul=False):
     """Returns (text, info).  Query is sat iff goal can fail under hyps."""
     ghyps, concl = split_goal(goal)
     all_h = list(hyps) + ghyps
@@ -322,7 +339,7 @@ def build_query(hyps, goal, quantified=False, models=True, extra_instances=True)
         info['instantiated'] = inst
     else:
         hs = all_h
-    pr = Printer()
+    pr = Printer(nlmul=nlmul)
     lines = []
     body = []
     for h in hs:
@@ -335,6 +352,7 @@ def build_query(hyps, goal, quantified=False, models=True, extra_instances=True)
     while k < len(pr.extra):
         body.append('(assert %s)' % pr.p(pr.extra[k]))
         k += 1
+    body.extend(getattr(pr, 'nlfacts', []))
     lines.append('(set-option :produce-models true)' if models else '')
     lines.append('(set-logic ALL)')
     # declarations/definitions were collected in dependency order while printing;
